@@ -18,6 +18,7 @@ type ans struct {
 	Status int    `json:"status,omitempty"`
 	Size   int    `json:"size,omitempty"`
 	SMax   bool   `json:"s_maxage,omitempty"` // lifetime given as s-maxage (with a contradicting max-age)
+	ETag   string `json:"etag,omitempty"`     // the same validator on every version although the body changes
 }
 
 // lifetime the lifetime the reference expects pike to compute (0 = not storable)
@@ -100,6 +101,9 @@ func replyOf(f *hx.Fetch, a ans) *hx.Reply {
 		if a.Age != "" {
 			rep.Header = append(rep.Header, [2]string{"Age", a.Age})
 		}
+		if a.ETag != "" {
+			rep.Header = append(rep.Header, [2]string{"ETag", a.ETag})
+		}
 	case "nocache":
 		rep.Header = append(rep.Header, [2]string{"Cache-Control", "no-cache"})
 	case "nocc":
@@ -133,12 +137,15 @@ type entryModel struct {
 	// the property using the model (staleness is C04's concern); the model keeps the old entry. Counted.
 	TolerateStale bool
 	StaleServes   int
-	State         int
-	Ver           int64 // fetch id of the stored version
-	Created       int64
-	T             int64
-	Until         int64 // hit-for-pass until (inclusive)
-	HFP           int64 // configured hit-for-pass seconds
+	// CheckBodyVersion: the body delivered must be the body of the version named by the headers (the
+	// fresh result replaces the old one as a whole)
+	CheckBodyVersion bool
+	State            int
+	Ver              int64 // fetch id of the stored version
+	Created          int64
+	T                int64
+	Until            int64 // hit-for-pass until (inclusive)
+	HFP              int64 // configured hit-for-pass seconds
 }
 
 func (m *entryModel) normalise(now int64) {
@@ -219,6 +226,13 @@ func (m *entryModel) burstCheck(now int64, results []*hx.Result, rawFetches []*h
 				return "request_failed", "request did not complete: " + res.Err.Error()
 			}
 			return "request_failed", fmt.Sprintf("error status %d although its upstream contact did not fail", res.Status)
+		}
+	}
+	if m.CheckBodyVersion {
+		for _, res := range results {
+			if res.Err == nil && res.Status == 200 && res.Req.Method != "HEAD" && res.HasIdent && (res.Ident.FetchID != res.FetchID || !res.Ident.Intact) {
+				return "body_of_another_version", fmt.Sprintf("headers belong to fetch %d but the body delivered is that of fetch %d (intact=%v)", res.FetchID, res.Ident.FetchID, res.Ident.Intact)
+			}
 		}
 	}
 	switch m.State {
